@@ -15,6 +15,8 @@ CLAIMED = {
          "lockset with interprocedural lock context, pairing typestate, guard-dominance and constant-table rules over clang CFGs"),
  "C01": ("Relational numeric abstract interpretation (polyhedral facts over symbolic lengths/capacities, no-wrap side conditions, trace partitioning) of every function of source/byte_buf.c: every explicit memory access is inside its buffer/cursor/table/allocation for ALL lengths and capacities including SIZE_MAX-adjacent ones; stored lengths never wrap; len <= capacity at every return; no caller-visible field or byte changes on any failure path; appends write only past the entry length; growth copies before scrubbing/releasing; secure zero has its compiler barrier. Content equality is not decided.",
          "abstract interpretation (linear-constraint domain, Fourier-Motzkin entailment) + ordering rules over clang CFGs"),
+ "C09": ("Array list: relational numeric abstract interpretation of every function in array_list.inl / array_list.c - all memory operations in bounds for all lengths/indices/element sizes, the five block moves equal their sequence specification, length*item_size <= current_size at every return, growth post-condition re-derived from ensure_capacity's body, no field change on failure, static-mode storage never reallocated, sliced swap covers every byte. Linked list: symbolic-heap abstract interpretation of every list operation over all alias configurations of the touched neighbourhood (adjacent/identical/cross-list nodes, empty lists), checking forward/backward sequence, detachment and frame. Histories of operations and element contents are not decided.",
+         "abstract interpretation: linear-constraint numeric domain + symbolic-heap shape domain over clang CFG facts"),
 }
 NA_DEFAULT = "check not built yet in this commit (see DESIGN.md section 9 build order)"
 NA = {}
